@@ -230,7 +230,7 @@ class Broker(object):
         tag = ch.next_tag
         if not consumer.auto_ack:
             ch.unacked[tag] = (queue, m)
-        self.frame(op="deliver", conn=ch.connection.ident, queue=queue, tag=tag, redelivered=m.redelivered,
+        self.frame(op="deliver", conn=ch.connection.ident, ch=ch.channel_number, queue=queue, tag=tag, redelivered=m.redelivered,
                    message_id=m.props.message_id, correlation_id=m.props.correlation_id, seq=m.seq)
         method = Basic.Deliver(consumer.tag, tag, m.redelivered, m.exchange, m.routing_key)
         consumer.callback(ch, method, m.props.copy(), m.body)
@@ -264,11 +264,11 @@ class Broker(object):
             tags = [delivery_tag]
         for t in tags:
             if t not in ch.unacked:
-                self.frame(op="ack", conn=ch.connection.ident, tag=t, unknown=True)
+                self.frame(op="ack", conn=ch.connection.ident, ch=ch.channel_number, tag=t, unknown=True)
                 ch._closed_by_broker(406, "PRECONDITION_FAILED - unknown delivery tag %d" % t)
                 return
             queue, m = ch.unacked.pop(t)
-            self.frame(op="ack", conn=ch.connection.ident, tag=t, queue=queue, message_id=m.props.message_id,
+            self.frame(op="ack", conn=ch.connection.ident, ch=ch.channel_number, tag=t, queue=queue, message_id=m.props.message_id,
                        correlation_id=m.props.correlation_id, seq=m.seq)
 
     def requeue_channel(self, ch, mark=True):
